@@ -290,4 +290,26 @@ CHECKS = {
         "quick": [T("TestC17", 8, 3, steps=30)],
         "thorough": [T("TestC17", 16, 60, steps=30, timeout=3000)],
     },
+    "C20": {
+        "level": "exploration",
+        "rule": ("three rapid sub-checks, one evidence file. (a) SyncCFTBlocks(begin,end) on the real syncer with a scripted peer "
+                 "manager answering GET_BLOCKS from a synthetic chain (begin 1-200, span 0-120, fetch size 0-50, up to two of three "
+                 "peers failing): emitted heights are exactly begin..end ascending, each once, every request range inside "
+                 "[begin,end]. (b) the real solo node (generated order.toml: batch size 1-4, timed or not): 1-4 rounds of 0-7 "
+                 "transactions via Prepare, an executor stub consumes Commit() and calls ReportState, stop/restart with "
+                 "WithApplied(last executed height). (c) 1- and 3-node clusters of the real etcdraft.Node in one process (tick 20 "
+                 "ms, election 5 ticks, snapshot count 3/5/20, batch size 1-3) wired through a harness OrderPeerManager whose "
+                 "AsyncSend/Broadcast consult a rapid-drawn fault script (deliver/drop/duplicate/delay per message ordinal), "
+                 "per-replica executor stubs with drawn lag, crash (Stop, executor queue dropped, storage released) and restart of a "
+                 "drawn replica with WithApplied(its executed height), block fetch served from the other replicas' stubs. Oracle "
+                 "(b,c): each replica's consumed heights are last-executed+1 (also across restarts), a height delivered on two "
+                 "replicas has identical transaction list and timestamp, a transaction hash is in at most one height. Non-trivial "
+                 "= sync span >= 2; solo/raft run with >=1 restart and >=3 delivered blocks; distinct = hash of the run's script "
+                 "and observed delivery history."),
+        "assumptions": ["goroutine and timer interleavings are not owned by the harness; a raft/solo failure is reported with the fault script and the observed per-replica delivery history, it may not replay bit for bit",
+                        "a cluster that elects no leader within 15 s or does not converge after healing is counted as inconclusive for that case, never as a violation",
+                        "liveness (solo stops proposing after a height mismatch) is outside this safety property"],
+        "quick": [T("TestC20Sync", 2, 400, steps=30), T("TestC20Solo", 6, 8, steps=30), T("TestC20Raft", 8, 6, steps=30, shrink="5s")],
+        "thorough": [T("TestC20Sync", 4, 30000, steps=30, timeout=3000), T("TestC20Solo", 6, 250, steps=30, timeout=3000), T("TestC20Raft", 16, 120, steps=30, timeout=3000, shrink="10s")],
+    },
 }
